@@ -77,6 +77,13 @@ fn open_stream(case: &Json) -> gix_worktree_stream::Stream {
 }
 
 fn main() {
+    // A desynchronised stream makes the reader allocate whatever length it finds on the wire: keep that
+    // from eating the (shared) machine - beyond the limit `try_reserve` fails and the run reports an error.
+    let lim = libc::rlimit { rlim_cur: 3 << 30, rlim_max: 3 << 30 };
+    // SAFETY: plain syscall with a valid pointer
+    unsafe {
+        libc::setrlimit(libc::RLIMIT_AS, &lim);
+    }
     run(|case| {
         let out_prefix = jstr(&case["out"]).to_string();
         let reads = usizes(&case["reads"]);
@@ -153,7 +160,7 @@ fn main() {
             &mut stream,
             gix_worktree_stream::Stream::next_entry,
             std::io::Cursor::new(&mut zip),
-            opts(gix_archive::Format::Zip { compression_level: None }),
+            opts(gix_archive::Format::Zip { compression_level: Some(1) }),
         ) {
             out["zip_err"] = json!(e.to_string());
         }
